@@ -248,7 +248,7 @@ def _drive(run_hypothesis, col, tier, to_spec=lambda s: s):
     ignored = set()
     budget = SHRINK_CALLS[tier]
     for rnd in range(MAX_BUCKETS + 1):
-        st = {"target": None, "hit": None, "after": 0, "harness": None}
+        st = {"target": None, "hit": None, "after": 0, "harness": None, "failing": {}}
 
         def body(spec, outcome_fn, count=True, st=st):
             if st["harness"] is not None or st["target"] is not None:
@@ -256,8 +256,8 @@ def _drive(run_hypothesis, col, tier, to_spec=lambda s: s):
                 if st["after"] > budget:
                     # shrinking budget exhausted: only the best known failing case still fails,
                     # so the shrinker stops and the final replay of the minimal case is stable
-                    if st["hit"] is not None and spec_hash(spec) == st["hit"][2]:
-                        raise PropertyViolation(st["hit"][1].msg)
+                    if spec_hash(spec) in st["failing"]:
+                        raise PropertyViolation(st["failing"][spec_hash(spec)])
                     if st["harness"] is not None and spec_hash(spec) == st["harness"][1]:
                         raise HarnessError(st["harness"][0])
                     return
@@ -279,13 +279,17 @@ def _drive(run_hypothesis, col, tier, to_spec=lambda s: s):
                 st["target"] = news[0].bucket
             hits = [f for f in news if f.bucket == st["target"]]
             if hits:
-                st["hit"] = (spec, hits[0], spec_hash(spec))
+                h = spec_hash(spec)
+                st["failing"][h] = hits[0].msg
+                size = len(json.dumps(spec, default=str))
+                if st["hit"] is None or size <= st["hit"][3]:
+                    st["hit"] = (spec, hits[0], h, size)
                 raise PropertyViolation(hits[0].msg)
 
         try:
             run_hypothesis(body, rnd)
         except PropertyViolation:
-            spec, f, _ = st["hit"]
+            spec, f = st["hit"][0], st["hit"][1]
             col.violations.append(
                 {"bucket": f.bucket, "msg": f.msg, "spec": spec, "data": enc(f.data)}
             )
@@ -296,7 +300,7 @@ def _drive(run_hypothesis, col, tier, to_spec=lambda s: s):
         except hypothesis.errors.HypothesisException as exc:
             if st["hit"] is not None:
                 # e.g. Flaky: keep the failing case, flagged
-                spec, f, _ = st["hit"]
+                spec, f = st["hit"][0], st["hit"][1]
                 col.violations.append(
                     {
                         "bucket": f.bucket,
